@@ -34,6 +34,9 @@ type Spec struct {
 	// Resolved: a resolved-entry hook (the other public hook of the RIB, handed a copy of all
 	// instances for every top-level entry change) is registered too.
 	Resolved bool `json:"resolved,omitempty"`
+	// AddNI, when set, replaces Op: the second actor creates this network instance at runtime
+	// (RIB.AddNetworkInstance) instead of sending an operation
+	AddNI string `json:"addni,omitempty"`
 }
 
 // Result of a run.
@@ -130,10 +133,17 @@ func Run(pre hgen.History, in Spec, observer rib.RIBHookFn) *Result {
 		res.Pre = p
 		res.PreOK = len(obs.Diff(obs.FromModel(m), p)) == 0
 	}
-	op := in.Op.Proto()
+	var op *spb.AFTOperation
+	if in.AddNI == "" {
+		op = in.Op.Proto()
+	}
 	runOp = func() {
 		defer close(done)
 		opGID.Store(drive.CurGID())
+		if in.AddNI != "" {
+			res.OpErr = r.AddNetworkInstance(in.AddNI)
+			return
+		}
 		if op.GetOp() == spb.AFTOperation_DELETE {
 			res.OKs, res.Fails, res.OpErr = r.DeleteEntry(in.Op.NI, op)
 		} else {
